@@ -4,9 +4,9 @@ package main
 
 import (
 	"fmt"
-	"os"
 	"go/token"
 	"go/types"
+	"os"
 	"strings"
 
 	"golang.org/x/tools/go/ssa"
@@ -168,8 +168,21 @@ func (e *Exec) resolveAssign(st *State, fn *ssa.Function, params map[string]Valu
 		}
 		return assignEntry{prefix: pk + tn, ref: nil, text: path, whole: true}
 	}
+	if strings.HasPrefix(path, "global(") {
+		name := strings.TrimSuffix(strings.TrimPrefix(path, "global("), ")")
+		if p := fn.Package(); p != nil {
+			if g, ok := p.Members[name].(*ssa.Global); ok {
+				l := e.locOf(e.globalPtr(g).(*PtrV))
+				return assignEntry{prefix: l.Key, ref: l.Idx[0], text: path}
+			}
+		}
+		panic(unsupported("assigns: unknown package-level variable " + name))
+	}
 	if path == "ghost.ioerr" {
 		return assignEntry{prefix: "ghost:ioerr", ref: IntConst(0), text: path}
+	}
+	if strings.HasPrefix(path, "ghost.") && !strings.Contains(path, "(") {
+		return assignEntry{prefix: "ghost:" + strings.TrimPrefix(path, "ghost."), ref: IntConst(0), text: path}
 	}
 	if strings.HasPrefix(path, "ghost.rd(") || strings.HasPrefix(path, "ghost.wr(") {
 		inner := strings.TrimSuffix(path[len("ghost.rd("):], ")")
@@ -632,7 +645,8 @@ func (e *Exec) initialState() *State {
 
 // ---------- stubs filled in by later modules ----------
 
-func (e *Exec) sharedAccess(st *State, fr *Frame, p *PtrV, pos token.Pos)        {}
+func (e *Exec) sharedAccess(st *State, fr *Frame, p *PtrV, pos token.Pos) {}
+
 // sharedAccessMap: a map read/write/delete. If the map was loaded from a field declared `shared ... guarded_by`,
 // the guarding mutex (a sibling field path of the same object) must be in the ghost lock-set.
 func (e *Exec) sharedAccessMap(st *State, fr *Frame, m ssa.Value, pos token.Pos) {
@@ -663,7 +677,7 @@ func (e *Exec) sharedAccessMap(st *State, fr *Frame, m ssa.Value, pos token.Pos)
 		e.oblige(st, fr, "guarded."+sd.Label, pos, held)
 	}
 }
-func (e *Exec) lockAcquired(st *State, l Loc)                                    {}
+func (e *Exec) lockAcquired(st *State, l Loc) {}
 
 func (e *Exec) selectInstr(st *State, fr *Frame, x *ssa.Select) []Outcome {
 	panic(unsupported("select statement"))
